@@ -194,7 +194,7 @@ TreesViol(f, D, mblocks, ln, i) ==
 RdBlock(rb, bps) ==
     LET bpi == IF "bpi" \in DOMAIN rb THEN ToInt(rb.bpi) ELSE 0
         tps == bps[bpi + 1].tps
-    IN [f \in (DOMAIN rb \cup {"bpi"}) \ {"earliest"} |->
+    IN [f \in (DOMAIN rb \cup {"bpi"}) \ {"earliest", "str"} |->       \* ("str": digest of the rendered block, compared between runs only)
           CASE f = "bpi" -> bpi
             [] f = "qrs" -> [i \in 1..Len(rb.qrs) |-> NormRead(rb.qrs[i], tps)]
             [] f = "mms" -> [i \in 1..Len(rb.mms) |-> NormRead(rb.mms[i], tps)]
